@@ -115,8 +115,10 @@ Definition validate_tt_rank (n : nat) (rank : rank_spec) : res (list nat) :=
   | inr l => if Nat.eqb (length l) (n + 1) && Nat.eqb (hd 0 l) 1 && Nat.eqb (last l 0) 1 then Ok l else Err
   end.
 
+(* an order-1 (or order-0) input: `(prev_rank, last_dim) = unfolding.shape` fails on the 1-D array -> ValueError *)
 Definition tensor_train (X : tensor F) (rank : rank_spec) : res (list (tensor F)) :=
-  rbind (validate_tt_rank (ndim X) rank) (fun rk => chain_loop 0 (shape X) (tl rk) 1 1 (data X)).
+  rbind (validate_tt_rank (ndim X) rank) (fun rk =>
+    if ndim X <=? 1 then Err else chain_loop 0 (shape X) (tl rk) 1 1 (data X)).
 
 (* tensor_train_matrix: interleave input/output modes, merge the pairs, TT-SVD, split again *)
 Fixpoint zip3 {A B C D} (f : A -> B -> C -> D) (la : list A) (lb : list B) (lc : list C) : list D :=
@@ -239,6 +241,7 @@ Fixpoint hooi_iter (X : tensor F) (ranks : list nat) (n_iter c : nat) (fs : list
 Definition tucker (X : tensor F) (rank : rank_spec) (n_iter : nat) : res (tensor F * list (tensor F)) :=
   let ranks := validate_tucker_rank (ndim X) rank in
   if negb (Nat.eqb (length ranks) (ndim X)) then Err else
+  if ndim X <=? 1 then Err else      (* TuckerTensor: "should be composed of at least two factors and a core" *)
   rbind (hosvd_factors X ranks 0 0) (fun fs0 =>
   rbind (hooi_iter X ranks n_iter (ndim X) fs0) (fun fs =>
   rbind (multi_mode_dot X fs 0 None true) (fun core => Ok (core, fs)))).
